@@ -70,10 +70,11 @@ def history(rnd, nops):
         elif r < pa + 0.35: ops.append(('remove', k))
         elif r < pa + 0.42: ops.append(('in', k))
         elif r < pa + 0.46: ops.append(('len',))
-        elif r < pa + 0.50: ops.append(('iter',))
+        elif r < pa + 0.48: ops.append(('iter',))
+        elif r < pa + 0.50: ops.append(('iter', 'peek'))          # a walk over the set that is abandoned after its first element, then a full one
         else: ops.append(('draw',))
     if rnd.random() < 0.3:   # drain to empty, draw on empty, refill
-        ks = sorted({o[1] for o in ops if len(o) > 1 and o[0] != 'init'}, key=enc)
+        ks = sorted({o[1] for o in ops if len(o) > 1 and o[0] not in ('init', 'iter')}, key=enc)
         ops += [('discard', k) for k in ks] + [('draw',), ('len',), ('add', ks[0] if ks else 1), ('add', ks[-1] if ks else 0), ('draw',)]
     return ops
 
@@ -123,6 +124,9 @@ def execute(ops, rnd):
             elif op[0] == 'len':
                 inp.append("len"); exp.append(f"{len(ds)} empty={'true' if ds.empty() else 'false'}")
             elif op[0] == 'iter':
+                if len(op) > 1:
+                    for _x in ds: break
+                    next(iter(ds), None)
                 inp.append("iter"); exp.append("[" + ", ".join(str(enc(x)) for x in ds) + "]")
             elif op[0] == 'draw':
                 sc.log = []
@@ -164,6 +168,8 @@ def loci_as_sets(ops):
                         ok = False
                     if ok != (e in ref): what = f"remove({e}) {'succeeded' if ok else 'raised KeyError'}, the set {'does not hold' if ok else 'holds'} it"
                     ref.discard(e)
+                elif op[0] == 'iter' and len(op) > 1:
+                    for _x in l: break
                 elif op[0] == 'in':
                     if (e in l) != (e in ref): what = f"{e} in locus is {e in l}, in the set {e in ref}"
                 elif op[0] == 'draw':
